@@ -247,6 +247,10 @@ def w_ftables(job):
             for j, b in enumerate(rm):
                 if not a or not b:
                     continue
+                if name == 'Overlap' and (lvals[i] == '' or rvals[j] == ''):
+                    # C06 states OverlapFilter keeps a pair only if both *strings* are non-empty; an empty
+                    # string that still yields a (padding) q-gram is therefore not required to be kept
+                    continue
                 m, n, o = a.bit_count(), b.bit_count(), (a & b).bit_count()
                 cls, _ = judge(m, n, o)
                 if cls != 'must':
